@@ -14,10 +14,25 @@ def observe(R, n, seed=None, nb=200):
     out = R.harness("c08", ["-n", n, "-nb", nb], env=env, outdir=os.path.join(R.work, "c08_%s" % (seed if seed is not None else "main")))
     if not out:
         return None
-    res = R.coq_cases(out, label="C08 correspondence")
-    if res is None:
-        return None
-    mism, viol, total = res
+    # evaluate in chunks (each chunk = up to 16 parallel shards of <= 150 cases): bounds the memory of the coqc processes
+    import shutil
+    lines = [l for l in open(os.path.join(out, "cases.txt")) if l.strip()]
+    CH = 2400
+    mism, viol, total = [], [], 0
+    for ci in range(0, len(lines), CH):
+        cdir = out if len(lines) <= CH else os.path.join(out, "chunk%d" % (ci // CH))
+        if cdir != out:
+            os.makedirs(cdir, exist_ok=True)
+            open(os.path.join(cdir, "cases.txt"), "w").write("".join(lines[ci:ci + CH]))
+            for f in ("pre.v", "meta.json"):
+                shutil.copyfile(os.path.join(out, f), os.path.join(cdir, f))
+        res = R.coq_cases(cdir, label="C08 correspondence")
+        if res is None:
+            return None
+        m, v, t = res
+        mism += [ci + i for i in m]
+        viol += [(ci + i, cl) for i, cl in v]
+        total += t
     cases = json.load(open(os.path.join(out, "cases.json")))
     return out, mism, viol, total, cases
 
@@ -68,7 +83,7 @@ def run(R):
     R.coq_files(FILES)
     R.coq_property()
     R.audit()
-    n = 200 if R.tier == "quick" else 4000
+    n = 200 if R.tier == "quick" else 3000
     obs = observe(R, n, nb=200 if R.tier == "quick" else -1)   # boundary stream: 30 core + sample / whole enumeration
     total = 0
     if obs:
